@@ -82,6 +82,33 @@ def _spoil(ch: core.Chooser, desc: dict) -> dict:
     return d
 
 
+def _retype(ch: core.Chooser, desc: dict) -> dict:
+    """Other coefficient dtypes for polynomial arguments (a conversion that is a no-op for one dtype hands the
+    argument's own memory on: 'copy only if needed' goes wrong exactly for the dtype that needs no copy)."""
+    if not ch.chance(0.25):
+        return desc
+    d = json.loads(json.dumps(desc))
+    dt = ch.choice(["bool", "bool", "int32", "uint8", "float32", "int8", "float64", "int64"])
+    for a in d["args"]:
+        if isinstance(a, dict) and isinstance(a.get("poly"), dict) and a["poly"].get("dtype") in ("int64", "float64"):
+            lit = a["poly"]
+            try:
+                if dt == "bool":
+                    cols = [[bool(v) for v in col] for col in lit["coefficients"]]
+                    if len(cols) >= 2 and cols[0]:  # an element that is zero in the first term and non-zero in a later one
+                        cols[0][0], cols[-1][0] = False, True
+                elif dt.startswith("float"):
+                    cols = [[float(numpy.dtype(dt).type(v)) for v in col] for col in lit["coefficients"]]
+                elif dt == "uint8":
+                    cols = [[abs(int(v)) % 256 for v in col] for col in lit["coefficients"]]
+                else:
+                    cols = [[max(-100, min(100, int(v))) for v in col] for col in lit["coefficients"]]
+            except (TypeError, ValueError, OverflowError):
+                continue
+            lit["coefficients"], lit["dtype"] = cols, dt
+    return d
+
+
 def generate(rs: int, tier: str, index: int) -> dict:
     setup()
     ch = core.Chooser(rs, "plan")
@@ -97,6 +124,7 @@ def generate(rs: int, tier: str, index: int) -> dict:
             desc = ops.gen_op(c.sub("op"), only=[name])
         else:
             desc = ops.gen_op(c.sub("op"))
+        desc = _retype(c.sub("retype"), desc)
         step: Dict[str, Any] = {"id": i, "op": desc}
         if cls == "natural":
             step["op"] = _spoil(c.sub("spoil"), desc)
@@ -116,10 +144,14 @@ def snap(obj: Any, depth: int = 0) -> Any:
     import numpoly
 
     if isinstance(obj, numpoly.ndpoly):
-        coefs = obj.coefficients
-        return ("ndpoly", obj.shape, str(obj.dtype), tuple(obj.names), numpy.asarray(obj.exponents).tolist(),
-                [numpy.asarray(c).tobytes() for c in coefs], [str(numpy.asarray(c).dtype) for c in coefs],
-                [numpy.asarray(c).shape for c in coefs], [str(k) for k in obj.keys.tolist()])
+        try:
+            coefs = obj.coefficients
+            return ("ndpoly", obj.shape, str(obj.dtype), tuple(obj.names), numpy.asarray(obj.exponents).tolist(),
+                    [numpy.asarray(c).tobytes() for c in coefs], [str(numpy.asarray(c).dtype) for c in coefs],
+                    [numpy.asarray(c).shape for c in coefs], [str(k) for k in obj.keys.tolist()],
+                    [str(n) for n in (numpy.ndarray.view(obj, numpy.ndarray).dtype.names or ())])
+        except Exception as exc:  # noqa: BLE001  (the object can no longer be read through its own accessors)
+            return ("ndpoly-unreadable", f"{type(exc).__name__}: {exc}")
     if isinstance(obj, numpy.ndarray):
         return ("ndarray", obj.shape, str(obj.dtype), obj.tobytes())
     if isinstance(obj, (list, tuple)):
@@ -135,8 +167,10 @@ def snap_diff(a: Any, b: Any) -> str:
     if a == b:
         return ""
     if isinstance(a, tuple) and isinstance(b, tuple) and a and b and a[0] == b[0] == "ndpoly":
-        labels = ["kind", "shape", "dtype", "names", "exponents", "coefficient bytes", "coefficient dtypes", "coefficient shapes", "keys"]
+        labels = ["kind", "shape", "dtype", "names", "exponents", "coefficient bytes", "coefficient dtypes", "coefficient shapes", "keys", "storage field names"]
         return ", ".join(lbl for lbl, x, y in zip(labels, a, b) if x != y) + " changed"
+    if isinstance(b, tuple) and b and b[0] == "ndpoly-unreadable":
+        return f"the argument can no longer be read ({b[1]})"
     if isinstance(a, tuple) and isinstance(b, tuple) and len(a) == 2 and isinstance(a[1], list) and isinstance(b[1], list):
         for i, (x, y) in enumerate(zip(a[1], b[1])):
             if x != y:
@@ -186,6 +220,9 @@ class Runner:
             self.bump(f"undecided:{exc.reason}")
             return None
         before = snap((args, kwargs))
+        if "ndpoly-unreadable" in repr(before)[:100000]:
+            self.bump("undecided:argument-unreadable-before-call")
+            return None
         gbefore = _globals_snapshot()
         outcome = "returned"
         fired = None
